@@ -1,3 +1,58 @@
-(* placeholder until the decode proofs are written *)
-From Coq Require Import ZArith.
-Theorem C02_placeholder : True. Proof. exact I. Qed.
+(* C02 - well-formed positive responses decode to exactly the values the server encoded.  Statements only.
+   Reference encoders (rec4 / recs4, rec5, enc_did / enc_dids, lenpref, big-endian fields) are in Proofs/C02_lemmas.v. *)
+From Coq Require Import ZArith List Bool String.
+From UDS Require Import Lib.Bytes Lib.ErrM Lib.PyOps Model.Message Model.Client Model.Services Model.Svc_Memory Model.Svc_Did
+  Model.Svc_File Model.Svc_Dtc Proofs.Bytes_lemmas Proofs.History_lemmas Proofs.C02_lemmas Proofs.C14_lemmas.
+Import ListNotations.
+Open Scope Z_scope.
+
+(* multi-byte integers are read big-endian and unsigned, for every width and value *)
+Theorem C02_unsigned_fields : forall n v, 0 <= v < 256 ^ Z.of_nat n -> be_dec (be_enc n v) = v.
+Proof. exact be_dec_enc. Qed.
+Theorem C02_field_at_cursor : forall pre n v post, 0 <= v < 256 ^ Z.of_nat n ->
+  take_num (pre ++ be_enc n v ++ post) (List.length pre) n = inr v.
+Proof. exact take_num_decode. Qed.
+Print Assumptions C02_field_at_cursor.
+
+(* maxNumberOfBlockLength of RequestDownload / RequestUpload: length nibble 0..8, any value incl. the top bit *)
+Theorem C02_block_length : forall r n v extra, 0 <= n <= 8 -> 0 <= v < 256 ^ n ->
+  p_data r = (16 * n) :: be_enc (Z.to_nat n) v ++ extra -> rud_interpret r = inr [v].
+Proof. exact rud_decode. Qed.
+Print Assumptions C02_block_length.
+
+(* P2 / P2* of a session change: C10_scaled.  Echo of WriteMemoryByAddress: C14_echo. *)
+
+(* length-prefixed byte strings of Authentication responses, at any position *)
+Theorem C02_length_prefixed : forall pre b post, Z.of_nat (List.length b) < 65536 ->
+  extract_param (pre ++ lenpref b ++ post) (List.length pre) = inr (b, (List.length pre + 2 + List.length b)%nat).
+Proof. exact extract_param_decode. Qed.
+Print Assumptions C02_length_prefixed.
+
+(* (DTC, status) record lists of any length: order and count kept, 24-bit identifier and status at the right offsets *)
+Theorem C02_dtc_records : forall pc sub l pre acc fuel,
+  Forall wf_rec4 l -> (pc_ign pc = true -> Forall (fun x => x <> (0, 0)) l) ->
+  (List.length l < fuel)%nat ->
+  loop_records fuel pc sub false (pre ++ recs4 l) (List.length pre) acc = inr (acc ++ map dtc4 l).
+Proof. exact loop_records_decode. Qed.
+Print Assumptions C02_dtc_records.
+
+(* WWH-OBD (severity, DTC, status) record lists *)
+Theorem C02_wwh_obd_records : forall pc l acc fuel n,
+  Forall wf_rec5 l -> (pc_ign pc = true -> Forall (fun x => x <> (0, 0, 0)) l) ->
+  (List.length l + n < fuel)%nat -> (n = 0%nat \/ (pc_tol pc = true /\ pc_ign pc = true)) ->
+  loop_wwh fuel pc (flat_map rec5 l ++ repeat 0 n) acc = inr (acc ++ map dtc5 l).
+Proof. exact loop_wwh_decode. Qed.
+Print Assumptions C02_wwh_obd_records.
+
+(* DID values of a ReadDataByIdentifier response: any number of distinct identifiers with fixed-length codecs *)
+Theorem C02_did_values : forall pc req l pre vals fuel,
+  Forall (wf_did pc) l -> Forall (fun x => fst x <> 0 \/ pc_tol pc = false \/ lookup 0 (pc_dids pc) <> None) l ->
+  NoDup (map fst vals ++ map fst l) -> (List.length l < fuel)%nat ->
+  rdbi_loop fuel pc req (pre ++ enc_dids l) (List.length pre) vals = inr (vals ++ l).
+Proof. exact rdbi_loop_decode. Qed.
+Print Assumptions C02_did_values.
+
+(* C02_partial: the snapshot, extended-data, severity-record and fault-counter decoders of ReadDTCInformation, the
+   RequestFileTransfer composite and the Authentication task layouts are decoded field by field by the functions whose
+   primitive steps are proved above (take_num, extract_param, sub3/at_); their end-to-end statement is checked by the
+   structured-valid correspondence against the reference server encoder tools/harness/respspec.py, not yet by a Coq theorem. *)
